@@ -91,6 +91,17 @@ def field_variants(cls, typ, quant, name):
             if quant == '?':
                 return [('None', lambda: None)] + vs
             return vs
+        walrus = lambda: P(ast.NamedExpr(target=P(ast.Name(id='w', ctx=ast.Store())), value=opaque_expr('wv')))
+        if cls is ast.Compare and name == 'comparators':
+            # grammar: one comparator per link; a later one may bind
+            return [('three', lambda: [opaque_expr(name), opaque_expr(name), opaque_expr(name)]), ('one', lambda: [opaque_expr(name)]),
+                    ('walrus-in-a-later-one', lambda: [opaque_expr(name), walrus(), opaque_expr(name)]), ('walrus-in-the-first', lambda: [walrus()])]
+        if cls is ast.BoolOp and name == 'values':
+            return [('two', lambda: [opaque_expr(name), opaque_expr(name)]), ('walrus-in-a-later-one', lambda: [opaque_expr(name), walrus(), walrus()])]
+        if cls is ast.Assert and name == 'msg':
+            return [('present', lambda: opaque_expr(name)), ('None', lambda: None), ('walrus', walrus)]
+        if cls is ast.IfExp and name in ('body', 'orelse'):
+            return [('opaque', lambda: opaque_expr(name)), ('walrus', walrus)]
         if quant == '*':
             return [('two', lambda: [opaque_expr(name), opaque_expr(name)]), ('empty', lambda: [])]
         if quant == '?':
@@ -158,6 +169,8 @@ def field_variants(cls, typ, quant, name):
         return vs
     if typ == 'operator':
         return [('Add', ast.Add)]
+    if typ == 'cmpop':
+        return [('three-links', lambda: [ast.Lt(), ast.Lt(), ast.Is()]), ('one-link', lambda: [ast.Eq()])]
     if typ == 'boolop':
         return [('Or', ast.Or), ('And', ast.And)]
     if typ == 'expr_context':
